@@ -112,7 +112,7 @@ def run(ctx):
         "yield messages in a keyed session. 'Yields a message' is observed at the application's handler for update bodies; the "
         "other message kinds (salts, results, notifications, containers) are observed by C16's plain-frame scenarios",
     ]
-    return vlib.generic_check(ctx, SUB, MODULES, THEOREMS, RULE,
+    return vlib.generic_check(ctx, SUB, MODULES + ["Mtv.Props.Arith"], THEOREMS + vlib.ARITH_THEOREMS["C04"], RULE, gen_hook=vlib.regen_arith,
                               extra_trusted=["the Go specification server of harness/cmd/vh/x_envelope.go (crypto/sha1, crypto/aes, own IGE loop)"])
 
 
